@@ -14,6 +14,7 @@ def run(chk):
     from checks import main_wiring as _mw
     _mw.run(chk, [chk.pid])
     _lean.check_theorems(chk, "Poupool.Properties.Compose", COMPOSE)
+    _lean.check_theorems(chk, "Poupool.Properties.Compose3", ["Poupool.Compose3Props.chain_halt_ph", "Poupool.Compose3Props.chain_halt_cl"])
 
 
 def search(chk):
